@@ -28,7 +28,7 @@ Prog(e) ==
     [] e.k = "ref" -> TRUE            \* every helper rule of these families consumes
     [] e.k = "seq" -> \E i \in 1..Len(e.es) : Prog(e.es[i])
     [] e.k = "alt" -> \A i \in 1..Len(e.es) : Prog(e.es[i])
-    [] e.k \in {"plus", "exact", "min", "push"} -> Prog(e.e)
+    [] e.k \in {"plus", "exact", "min", "push", "tag"} -> Prog(e.e)
     [] e.k = "minmax" -> e.m >= 1 /\ Prog(e.e)
     [] OTHER -> FALSE
 
@@ -124,23 +124,92 @@ RECURSIVE HasIdxSlice(_)
 HasIdxSlice(e) ==
   CASE e.k = "peekslice" -> e.ha \/ e.hb
     [] e.k \in {"seq", "alt"} -> \E i \in 1..Len(e.es) : HasIdxSlice(e.es[i])
-    [] e.k \in {"opt", "star", "plus", "exact", "min", "max", "minmax", "and", "not", "push"} -> HasIdxSlice(e.e)
+    [] e.k \in {"opt", "star", "plus", "exact", "min", "max", "minmax", "and", "not", "push", "tag"} -> HasIdxSlice(e.e)
     [] OTHER -> FALSE
 FamStackWF == {g \in FamStack : ~(g.r.body.es[1].k = "opt" /\ HasIdxSlice(g.r.body.es[2]))}
 
+\* ---- family "tags": C01 (tags are compared between interpreter and generated code) ----
+\*   r = { BODY }   s = { "a" ~ "b"? }   v = _{ #t3 = s }     + silent WHITESPACE
+TagAtoms == {Tag("t1", Ref("s")), Tag("t2", SeqE(<<Ref("s"), Str(<<b>>)>>)), Tag("t1", AltE(<<Ref("t"), Ref("s")>>)),
+             Tag("t2", Ref("v")), Ref("s"), Ref("v"), Str(<<a>>)}
+TagT2 == TagAtoms \cup Un(TagAtoms) \cup Bin(TagAtoms, TagAtoms)
+TagT3 == {Tag("t4", SeqE(<<x, Ref("s")>>)) : x \in Un(TagAtoms)} \cup {Tag("t4", AltE(<<x, y>>)) : x \in TagAtoms, y \in Un(TagAtoms)}
+         \cup {Opt(x) : x \in Bin(TagAtoms, TagAtoms)} \cup {Star(x) : x \in {y \in Bin(TagAtoms, TagAtoms) : Prog(y)}}
+TagG(body, ws) == Merge([r |-> Rule("", body), s |-> Rule("", SBody), t |-> Rule("", TBody), v |-> Rule("_", Tag("t3", Ref("s")))],
+                        IF ws THEN TrivRules("ws") ELSE <<>>)
+FamTags == {TagG(x, ws) : x \in TagT2 \cup TagT3, ws \in BOOLEAN}
+
 -----------------------------------------------------------------------------
+\* ---- family "opt": C02, aimed at each optimizer pass ---------------------------------
+\*   r = m{ BODY }   q = qm{ "b" | "ab" }   s = { "a" ~ "b"? }    + trivia per config
+\* squash_choice: choices of literals / insensitive literals / ranges / classes, every order, shared prefixes
+SqAtoms  == {Str(<<a>>), Str(<<b>>), Str(<<a, b>>), Str(<<b, a>>), IStr(<<a>>), IStr(<<a, b>>), Rng(a, b), Cls("ASCII_ALPHA_UPPER"), Ref("q")}
+SqAtomsS == {Str(<<a>>), Str(<<a, b>>), IStr(<<b>>), Rng(a, a)}
+SqChoices == {AltE(<<x, y>>) : x \in SqAtoms, y \in SqAtoms} \cup {AltE(<<x, y, z>>) : x \in SqAtomsS, y \in SqAtomsS, z \in SqAtomsS}
+             \cup {AltE(<<x, AltE(<<y, z>>)>>) : x \in SqAtomsS, y \in SqAtomsS, z \in {Str(<<b>>), Ref("q")}}
+SqBodies == UNION {{ch, SeqE(<<ch, Str(<<b>>)>>), SeqE(<<ch, Eoi>>), Star(ch), SeqE(<<Plus(ch), Str(<<a>>)>>)} : ch \in SqChoices}
+\* skip: (!(x | y) ~ ANY)* and near misses
+SkTargets == {Str(<<b>>), AltE(<<Str(<<b>>), Str(<<a, b>>)>>), Ref("q"), AltE(<<Ref("q"), Str(<<sp>>)>>), AltE(<<Str(<<b>>), Rng(a, a)>>),
+              SeqE(<<Str(<<a>>), Str(<<b>>)>>), AltE(<<Str(<<b>>), AltE(<<Str(<<a, a>>), Str(<<sp>>)>>)>>)}
+SkForms(x) == {Star(SeqE(<<NotP(x), AnyC>>)), Star(SeqE(<<NotP(x), AnyC, Opt(Str(<<a>>))>>)), Plus(SeqE(<<NotP(x), AnyC>>)),
+               Star(SeqE(<<NotP(x), Rng(a, b)>>))}
+SkBodies == UNION {{f, SeqE(<<f, Opt(Str(<<b>>))>>), SeqE(<<Str(<<a>>), f, Eoi>>), SeqE(<<f, Ref("s")>>)} : f \in UNION {SkForms(x) : x \in SkTargets}}
+\* inline silent / inline built-in / unroll
+InlBodies == {Ref("q"), SeqE(<<Ref("q"), Ref("q")>>), Star(Ref("q")), NotP(Ref("q")), SeqE(<<Ref("WHITESPACE"), Ref("q")>>), Plus(Ref("q")), MaxR(Ref("q"), 2),
+              PushE(Ref("q")), SeqE(<<PushE(Ref("q")), PopT>>), Tag("t1", Ref("q")), AltE(<<Ref("q"), Ref("s")>>), MinR(Cls("ASCII_ALPHA_LOWER"), 2),
+              SeqE(<<Cls("ASCII_HEX_DIGIT"), Cls("ASCII_ALPHANUMERIC")>>), AltE(<<Cls("ASCII_DIGIT"), Cls("ASCII_ALPHA")>>), SeqE(<<AnyC, Soi>>),
+              Exact(AltE(<<Str(<<a>>), Ref("q")>>), 2), MinMax(Ref("s"), 1, 2), SeqE(<<Plus(Str(<<a>>)), Str(<<b>>)>>)}
+OptTriv(cfg) ==
+  CASE cfg = "none" -> <<>>
+    [] cfg = "ws"   -> [WHITESPACE |-> Rule("_", Str(<<sp>>))]
+    [] cfg = "ws|"  -> [WHITESPACE |-> Rule("_", AltE(<<Str(<<sp>>), Str(<<b, b>>)>>))]      \* fused into SKIP
+    [] cfg = "WS|"  -> [WHITESPACE |-> Rule("", AltE(<<Str(<<sp>>), Str(<<b, b>>)>>))]
+    [] cfg = "cm"   -> [COMMENT |-> Rule("_", SeqE(<<Str(<<sp>>), Opt(Str(<<sp>>))>>))]        \* fused into SKIP
+    [] cfg = "ws+cm" -> [WHITESPACE |-> Rule("_", Str(<<sp>>)), COMMENT |-> Rule("_", Str(<<b, b>>))]
+OptTrivs == {"none", "ws", "ws|", "WS|", "cm", "ws+cm"}
+QBody == AltE(<<Str(<<b>>), Str(<<a, b>>)>>)
+OptG(body, m, qm, cfg) == Merge([r |-> Rule(m, body), q |-> Rule(qm, QBody), s |-> Rule("", SBody)], OptTriv(cfg))
+FamOptSq  == {OptG(x, m, "_", cfg) : x \in SqBodies, m \in {""}, cfg \in {"none", "ws"}}
+FamOptSk  == {OptG(x, m, qm, cfg) : x \in SkBodies, m \in {"", "@"}, qm \in {"_", ""}, cfg \in {"none", "ws", "cm"}}
+RECURSIVE RefsOf(_)
+RefsOf(e) ==
+  CASE e.k = "ref" -> {e.n}
+    [] e.k \in {"seq", "alt"} -> UNION {RefsOf(e.es[i]) : i \in 1..Len(e.es)}
+    [] e.k \in {"opt", "star", "plus", "exact", "min", "max", "minmax", "and", "not", "push", "tag"} -> RefsOf(e.e)
+    [] OTHER -> {}
+RefsDefined(gr) == \A n \in DOMAIN gr : RefsOf(gr[n].body) \subseteq DOMAIN gr
+FamOptInl == {x \in {OptG(x, m, qm, cfg) : x \in InlBodies, m \in {"", "@", "$"}, qm \in {"_", ""}, cfg \in OptTrivs} : RefsDefined(x)}
+FamOptTrv == {OptG(x, "", "_", cfg) : x \in TrT2, cfg \in {"ws|", "WS|", "cm"}}
+
+RECURSIVE UsesSoi(_)
+UsesSoi(e) ==
+  CASE e.k = "soi" -> TRUE
+    [] e.k \in {"seq", "alt"} -> \E i \in 1..Len(e.es) : UsesSoi(e.es[i])
+    [] e.k \in {"opt", "star", "plus", "exact", "min", "max", "minmax", "and", "not", "push", "tag"} -> UsesSoi(e.e)
+    [] OTHER -> FALSE
+
 Grammars ==
   CASE Family = "core2"   -> FamCore2
     [] Family = "core3"   -> FamCore3
+    [] Family = "optsq"   -> FamOptSq
+    [] Family = "optsk"   -> FamOptSk
+    [] Family = "optinl"  -> FamOptInl
+    [] Family = "opttrv"  -> FamOptTrv
+    [] Family = "core2nosoi" -> {x \in FamCore2 : ~UsesSoi(x.r.body)}
+    [] Family = "core3nosoi" -> {x \in FamCore3 : ~UsesSoi(x.r.body)}
     [] Family = "trivia2" -> FamTrivia2
     [] Family = "trivia3" -> FamTrivia3
     [] Family = "mods"    -> FamMods
     [] Family = "stack"   -> FamStackWF
+    [] Family = "tags"    -> FamTags
 
 Alpha ==
-  CASE Family \in {"core2", "core3"} -> CoreAlpha
+  CASE Family \in {"core2", "core3", "core2nosoi", "core3nosoi"} -> CoreAlpha
     [] Family \in {"trivia2", "trivia3", "mods"} -> TrAlpha
     [] Family = "stack" -> StkAlpha
+    [] Family = "tags" -> {a, b, sp}
+    [] Family \in {"optsq", "optsk", "optinl"} -> {a, b, sp, A}
+    [] Family = "opttrv" -> {a, b, sp}
 
 Inputs == Strings(Alpha, MaxLen)
 StartsOf(inp) == IF Starts = "all" THEN 0..Len(inp) ELSE {0}
@@ -166,12 +235,6 @@ N == Len(CaseSeq)
 RefTreeWF     == Done => \A i \in 1..N : TreeWF(res[i], CaseSeq[i][1], CaseSeq[i][2])
 RefSingleRoot == Done => \A i \in 1..N : SingleRoot(g, "r", res[i], CaseSeq[i][2])
 \* C16 on the reference: start k == suffix shifted (grammars without SOI)
-RECURSIVE UsesSoi(_)
-UsesSoi(e) ==
-  CASE e.k = "soi" -> TRUE
-    [] e.k \in {"seq", "alt"} -> \E i \in 1..Len(e.es) : UsesSoi(e.es[i])
-    [] e.k \in {"opt", "star", "plus", "exact", "min", "max", "minmax", "and", "not", "push"} -> UsesSoi(e.e)
-    [] OTHER -> FALSE
 SoiFree == \A n \in DOMAIN g : ~UsesSoi(g[n].body)
 IndexOf(cs) == CHOOSE i \in 1..N : CaseSeq[i] = cs
 RefShift == (Done /\ Starts = "all" /\ SoiFree) =>
